@@ -193,14 +193,16 @@ func (p *subReporter) chk() {
 }
 
 type subEnv struct {
-	r         *core.Run
-	res       *resolve.Resolver
-	faults    bool
-	instances []*srcInstance
-	subs      []*subscriber
-	rep       *subReporter
-	shutdown  uint64 // resolver shutdown begun
-	hook      bool
+	r   *core.Run
+	res *resolve.Resolver
+	// unsubClients: first UnsubscribeClient call per connection id (sequence number)
+	unsubClients map[resolve.ConnectionID]uint64
+	faults       bool
+	instances    []*srcInstance
+	subs         []*subscriber
+	rep          *subReporter
+	shutdown     uint64 // resolver shutdown begun
+	hook         bool
 }
 
 // subSource is the stub SubscriptionDataSource.
@@ -510,6 +512,14 @@ func runSUB(r *core.Run) {
 				rc.Variables = astjson.MustParse(`{"a":[1,2],"b":[3,4]}`)
 			}
 			s.subscribeBegin = r.Sim.Tick()
+			if s.async {
+				if at, ok := e.unsubClients[s.id.ConnectionID]; ok {
+					// UnsubscribeClient only enqueues the removal: a subscription registered on that
+					// connection id before the event is processed is removed with the others. The
+					// harness reuses connection ids, so this subscriber may be asked to leave at once.
+					s.markRemoval(s.subscribeBegin, fmt.Sprintf("UnsubscribeClient of its connection was called earlier (seq %d)", at))
+				}
+			}
 			r.Hist("s%d subscribe key=%v async=%v filter=%d hb=%v", i, s.key, s.async, s.filterPar, s.heartbeat)
 			if s.async {
 				err := e.res.AsyncResolveGraphQLSubscription(rc, plan, s.w, s.id)
@@ -575,6 +585,12 @@ func runSUB(r *core.Run) {
 						}
 					}
 					r.Fault("unsubscribe_client")
+					if e.unsubClients == nil {
+						e.unsubClients = map[resolve.ConnectionID]uint64{}
+					}
+					if _, ok := e.unsubClients[s.id.ConnectionID]; !ok {
+						e.unsubClients[s.id.ConnectionID] = now
+					}
 					r.Hist("s%d unsubscribe client %d", i, s.id.ConnectionID)
 					_ = e.res.UnsubscribeClient(s.id.ConnectionID)
 					end := r.Sim.Tick()
